@@ -368,7 +368,7 @@ def w_scsv():
     return native_check(dict(suite_0=0xc02f, empty_renegotiation_info_scsv=True), 'none')
 
 
-def units(tier, seed):
+def _units_body(tier, seed):
     gk, sk = listed(KF_GREASE), listed(KF_SCSV)
     out = []
     for t in TEMPLATES:
@@ -377,6 +377,12 @@ def units(tier, seed):
     from checks import foundation, hello
     out.append(hello.unit(('K6', 'K3'), 'K6+K3: wire view and parse(compose(o)) == o'))
     return out + foundation.units(tier, seed)
+
+
+
+def units(tier, seed):
+    from checks import canary
+    return list(_units_body(tier, seed)) + [canary.ja3_constant()]
 
 
 FINDING_REPLAYS = {KF_GREASE: w_grease, KF_SCSV: w_scsv}
